@@ -35,7 +35,7 @@ BS, SQ = ord("\\"), ord("'")
 class Ctx:
     def __init__(self):
         def keep(n):
-            return n.startswith(("transfer_file_to_remote", "transfer_file_from_remote", "discover_remote_with_meta"))
+            return n.startswith(("transfer_file_to_remote", "transfer_file_from_remote", "discover_remote_with_meta", "apply_remote_deletes", "create_remote_dirs"))
         self.mir, self.mir_path, self.dump_s = env.load("bin", keep)
         self.idx = env.impl_index(self.mir)
         self.enums = env.source_enums()
@@ -204,7 +204,7 @@ def _mk(ctx, path_len):
         return VEnum("Poll", I(0), {0: [v.f[0]]})
 
     def lossy(ex_, st, args, dest_ty, func, where):
-        return VStruct("Cow", [VSeq(z3.Array("STDERR_TEXT", z3.IntSort(), z3.IntSort()), I(0), ex_.fresh_int("stderr_len", lo=0, hi=8), "char")])
+        return VStruct("Cow", [VSeq(z3.Array("STDERR_TEXT", z3.IntSort(), z3.IntSort()), I(0), ex_.fresh_int("stderr_len", lo=0, hi=3), "char")])
 
     def vec_from_elem(ex_, st, args, dest_ty, func, where):
         return VSeq(textmodels.K0, I(0), args[1].t, "u8")
@@ -561,6 +561,222 @@ def native_validation(R, pid, directions=("push", "pull")):
 
 
 def replay_case(case):
+    if case.get("fn") == "remote_list_newline":
+        for prof in ("dev", "release"):
+            r = newline_case(case["which"], prof)
+            print(prof, json.dumps(r), "=>", judge_newline(case["which"], r))
+        return
     for prof in ("dev", "release"):
         r = transport_case(case["direction"], case["name"], prof)
         print(prof, json.dumps(r)[:600], "=>", judge_transport(case["direction"], case["name"], r))
+
+
+# ----------------------------------------------------------------- the lists piped to a remote xargs (push: mkdir, rm)
+
+def _install_list_models(ex, ev):
+    from mirsmt.symexec import merge
+
+    def deep(st, v):
+        return fsmodels._deep(ex, st, v)
+
+    def paths_into_iter(ex_, st, args, dest_ty, func, where):
+        v = deep(st, args[0])
+        if not isinstance(v, VList):
+            raise Unsupported("iteration over %r" % (v,))
+        return VStruct("PathIter", [v, VInt(I(0), "usize")])
+
+    def paths_next(ex_, st, args, dest_ty, func, where):
+        ref = args[0]
+        it = ex_.deref(st, ref)
+        lst, idx = it.f[0], it.f[1].t
+        has = simp(idx < lst.len)
+        item = None
+        for j in range(len(lst.items) - 1, -1, -1):
+            item = lst.items[j] if item is None else merge(simp(idx == j), lst.items[j], item)
+        ex_.store_ref(st, ref, VStruct("PathIter", [lst, VInt(simp(z3.If(has, idx + 1, idx)), "usize")]))
+        return opt_sym(has, VRef("val", val=item)) if item is not None else VEnum("Option", I(0), {0: []})
+
+    def ident_ref(ex_, st, args, dest_ty, func, where):
+        return VRef("val", val=deep(st, args[0]))
+
+    def display(ex_, st, args, dest_ty, func, where):
+        return deep(st, args[0])             # Display of a (valid UTF-8) path is its text
+
+    def as_bytes(ex_, st, args, dest_ty, func, where):
+        s = deep(st, args[0])
+        s = s.f[0] if isinstance(s, VStruct) else s
+        # ASSUMED for this obligation: one-byte characters (the delimiter question does not depend on the encoding of others)
+        return VRef("val", val=VSeq(s.arr, s.off, s.len, "u8"))
+
+    def chunks(ex_, st, args, dest_ty, func, where):
+        s = deep(st, args[0])
+        return VStruct("ChunksOnce", [s, VBool(z3.BoolVal(False)), VInt(args[1].t, "usize")])
+
+    def chunks_next(ex_, st, args, dest_ty, func, where):
+        ref = args[0]
+        it = ex_.deref(st, ref)
+        s, done, size = it.f[0], it.f[1].t, it.f[2].t
+        ex_.oblig("model-bound", where, "text longer than one chunk", z3.And(st.guard, s.len > size))
+        has = simp(z3.And(z3.Not(done), s.len > 0))
+        ex_.store_ref(st, ref, VStruct("ChunksOnce", [s, VBool(z3.BoolVal(True)), it.f[2]]))
+        return opt_sym(has, VRef("val", val=s))
+
+    def join_any(ex_, st, args, dest_ty, func, where):
+        return pathv(ex_.fresh_int("joined_path", lo=0, hi=1 << 30))
+
+    def rm_local(ex_, st, args, dest_ty, func, where):
+        ok = ex_.fresh_bool("remove_ok")
+        fsmodels.record(ex_, st, "remove_file", path=I(0), ok=ok)
+        return fsmodels.io_result(ex_, ok)
+    ex.models = [(re.compile(r"^<&\[PathBuf\] as IntoIterator>::into_iter$"), paths_into_iter, "<&[PathBuf]>::into_iter"),
+                 (re.compile(r"^<std::slice::Iter<'_, PathBuf> as Iterator>::next$"), paths_next, "slice::Iter<PathBuf>::next"),
+                 (re.compile(r"^<PathBuf as Deref>::deref$"), ident_ref, "PathBuf deref (the same text)"),
+                 (re.compile(r"^Path::display$"), display, "Path::display (the path's text; valid UTF-8 assumed)"),
+                 (re.compile(r"^(std::string::)?String::as_bytes$"), as_bytes, "String::as_bytes (one-byte characters assumed)"),
+                 (re.compile(r"^core::slice::<impl \[u8\]>::chunks$"), chunks, "<[u8]>::chunks (text shorter than one chunk)"),
+                 (re.compile(r"^<(std::slice::)?Chunks<'_, u8> as IntoIterator>::into_iter$"), lambda ex_, st, a, d, f, w: a[0], "Chunks::into_iter"),
+                 (re.compile(r"^<(std::slice::)?Chunks<'_, u8> as Iterator>::next$"), chunks_next, "Chunks::next"),
+                 (re.compile(r"^Path::join::<&PathBuf>$"), join_any, "Path::join (pull branch; opaque)"),
+                 (re.compile(r"^std::fs::remove_file::<PathBuf>$"), rm_local, "fs::remove_file (pull branch; recorded)"),
+                 (re.compile(r"^std::io::_e?print$"), lambda ex_, st, a, d, f, w: UNIT, "eprintln!"),
+                 ] + ex.models
+
+
+def _delimiter_of(cmd_value):
+    """the delimiter the remote xargs splits its input at, read from the CONSTANT command line copia passes"""
+    if not (isinstance(cmd_value, VOpaque) and isinstance(cmd_value.what, tuple) and cmd_value.what[0] == "str"):
+        raise Inconclusive("the remote list command is not a constant string: %r" % (cmd_value,))
+    text = str(cmd_value.what[1])[1:-1].encode().decode("unicode_escape")
+    m = re.match(r"^xargs (-0|-d '\\n'|--null) (mkdir -p|rm -f --)$", text)
+    if not m:
+        raise Inconclusive("remote list command %r is not `xargs <delimiter option> mkdir -p | rm -f --`" % text)
+    return text, (0 if m.group(1) in ("-0", "--null") else 10), m.group(2)
+
+
+def list_pipe_obligation(ctx, R, prover, pid, which, path_len=2, n_paths=2):
+    """which: 'rm' (apply_remote_deletes, push branch) | 'mkdir' (create_remote_dirs)"""
+    ex, ev = _mk(ctx, path_len)
+    _install_list_models(ex, ev)
+    ex.fmt_cap = (n_paths + 1) * (2 * path_len + 2) + 2      # the accumulated list is itself appended to
+    ROOT = sym_text(ex, "remote_root", path_len)
+    HOST_T = z3.Int("HOST")
+    HOST = VRef("val", val=strv(HOST_T))
+    rels = [sym_text(ex, "rel%d" % i, path_len) for i in range(n_paths)]
+    nrel = ex.fresh_int("n_paths", lo=0, hi=n_paths)
+    lst = VList(rels, nrel, "PathBuf")
+    if which == "rm":
+        enums = ctx.enums.get("Dir") or {}
+        if "Push" not in enums:
+            raise Inconclusive("enum Dir { .., Push } not found")
+        vals = {"dir": VEnum("Dir", I(enums["Push"]), {}), "host": HOST, "remote_root": VRef("val", val=ROOT), "local_root": VRef("val", val=pathv(z3.Int("LOCAL_ROOT"))),
+                "dels": VRef("val", val=lst)}
+        fn, st, poll = _setup(ctx, ex, "apply_remote_deletes::{closure#0}", vals)
+        ok = poll.discr == 0
+    else:
+        vals = {"host": HOST, "remote_root": VRef("val", val=ROOT), "dirs": VRef("val", val=lst)}
+        fn, st, poll = _setup(ctx, ex, "create_remote_dirs::{closure#0}", vals)
+        ok = z3.And(poll.discr == 0, poll.pay[0][0].discr == 0)
+    argv = ev["argv"]
+    # the code after the loop over the paths is replicated per iteration count: one `ssh <host> <command>` triple per replica
+    if not argv or len(argv) % 3:
+        raise Inconclusive("expected `ssh <host> <command>` triples, found %d arguments" % len(argv))
+    triples = [argv[i:i + 3] for i in range(0, len(argv), 3)]
+    text, D, tool = _delimiter_of(argv[2][1])
+    for t3 in triples:
+        if _delimiter_of(t3[2][1])[0] != text:
+            raise Inconclusive("different list commands on different paths")
+    items = ([(ROOT, None)] if which == "mkdir" else []) + [(r, i) for i, r in enumerate(rels)]
+    parts = []
+    for r, i in items:
+        piece = concat([(ROOT, path_len), (lit("/"), 1), (r, path_len), (lit(chr(D)), 1)]) if i is not None else concat([(ROOT, path_len), (lit(chr(D)), 1)])
+        live = z3.BoolVal(True) if i is None else i < nrel
+        parts.append((VSeq(piece.arr, I(0), simp(z3.If(live, piece.len, 0)), "char"), 2 * path_len + 2))
+    spec = concat(parts)
+    idx = z3.Int("ANY_INDEX")
+    writes = ev["writes"]
+    goals = {"ssh-is-run-with-the-host-and-the-constant-list-command": z3.BoolVal(all(
+        isinstance(t3[0][1], VOpaque) and t3[0][1].what == ("str", '"ssh"') and t3[1][2] is not None and z3.eq(simp(t3[1][2]), simp(HOST_T)) for t3 in triples))}
+    goals["what-is-piped-to-the-remote-xargs-is-exactly-one-delimiter-terminated-entry-per-path:-<root>/<rel>"] = z3.And(
+        z3.BoolVal(len(writes) >= 1),
+        *[z3.Implies(w["guard"], seq_eq(VSeq(w["seq_val"].arr, w["seq_val"].off, w["seq_val"].len, "char"), spec, idx)) for w in writes])
+    chars = [(ROOT, j) for j in range(path_len)] + [(r, j) for r in rels for j in range(path_len)]
+    goals["no-entry-contains-the-delimiter-the-remote-xargs-splits-at-(so-it-sees-exactly-the-intended-paths)"] = z3.And(
+        *[z3.Implies(j < t.len, t.at(I(j)) != D) for t, j in chars])
+    prover.prove(ex, goals, "%s/push/%s-list" % (pid, which),
+                 "remote root and 0..%d relative paths of 0..%d characters each, every character any code point except NUL (a file name cannot contain NUL); the remote "
+                 "command is the constant %r: xargs splits its input at %s and runs `%s` on the pieces (CONTRACT of the remote xargs)" % (n_paths, path_len, text, "NUL" if D == 0 else "newline", tool),
+                 [fn.name], list_witness_native(R, pid, which), covers={"completes": ok, "two-entries": z3.And(ok, nrel == 2)})
+
+
+def newline_case(which, profile):
+    """the real `copia sync -r [--delete] SRC host:DST` through the stand-in for ssh with a NEWLINE inside a directory name"""
+    from . import c04
+    exe = c04.build_copia(profile)
+    base = tempfile.mkdtemp(prefix="copia-verif-nl-")
+    try:
+        s, d, home = os.path.join(base, "src"), os.path.join(base, "dst"), os.path.join(base, "home")
+        for x in (s, d, home):
+            os.makedirs(x)
+        open(os.path.join(s, "keep"), "w").write("keep")
+        victim = os.path.join(base, "victim")
+        open(victim, "w").write("precious")
+        if which == "rm":
+            # a stale file on the destination whose relative path is `x<newline>` + <absolute path of a file OUTSIDE the destination>
+            stale = d + "/x\n" + victim
+            os.makedirs(os.path.dirname(stale))
+            open(stale, "w").write("stale")
+        else:
+            os.makedirs(os.path.join(s, "d\ne"))
+            open(os.path.join(s, "d\ne", "f"), "w").write("hi")
+        bindir, log = _fake_ssh(base)
+        envp = dict(os.environ, PATH=bindir + ":" + os.environ["PATH"], HOME=home)
+        p = subprocess.run([exe, "sync", "-r", s, "fakehost:" + d] + (["--delete"] if which == "rm" else []), stdout=subprocess.PIPE, stderr=subprocess.PIPE, timeout=120, env=envp, cwd=home)
+        out = {"rc": p.returncode, "victim_outside_the_destination_still_exists": os.path.exists(victim),
+               "created_in_the_remote_working_directory": sorted(os.listdir(home)),
+               "destination": sorted(os.path.relpath(os.path.join(dd, f), d) for dd, _, fs in os.walk(d) for f in fs)}
+        if which == "rm":
+            out["stale_file_still_there"] = os.path.exists(stale)
+        return out
+    finally:
+        shutil.rmtree(base, ignore_errors=True)
+
+
+def judge_newline(which, r):
+    if not r["victim_outside_the_destination_still_exists"]:
+        return "a file OUTSIDE the destination was removed (exit %d)" % r["rc"]
+    if r["created_in_the_remote_working_directory"]:
+        return "something was created outside the destination, in the remote working directory: %s (exit %d)" % (r["created_in_the_remote_working_directory"], r["rc"])
+    if which == "rm" and r["rc"] == 0 and r.get("stale_file_still_there"):
+        return "exit 0 but the stale destination file was not removed"
+    return None
+
+
+def list_witness_native(R, pid, which):
+    def w(name, model, neg):
+        for prof in ("dev", "release"):
+            r = newline_case(which, prof)
+            why = judge_newline(which, r)
+            if why:
+                case = {"fn": "remote_list_newline", "which": which, "observed": {prof: r}}
+                return {"confirmed": True, "replay_path": R.save_replay("%s/push/%s-list" % (pid, which), case), "key": "%s/push/%s-list/newline-in-a-name" % (pid, which),
+                        "detail": "`copia sync -r%s SRC host:DST` with a newline inside a %s name (%s): %s" % (" --delete" if which == "rm" else "", "destination path" if which == "rm" else "source directory", prof, why)}
+        return {"confirmed": False, "detail": "the real binary handles a newline inside a name correctly in the %s list" % which}
+    return w
+
+
+def list_native_validation(R, pid):
+    n = 0
+    for which in ("rm", "mkdir"):
+        for prof in ("dev", "release"):
+            n += 1
+            r = newline_case(which, prof)
+            why = judge_newline(which, r)
+            if why:
+                R.validation["cases"] += n
+                R.validation["disagreements"] += 1
+                case = {"fn": "remote_list_newline", "which": which, "observed": {prof: r}}
+                R.add("%s/push/lists/native" % pid, "violated", confirmed=True, replay_path=R.save_replay("%s/push/lists/native" % pid, case), key="%s/push/%s-list/newline-in-a-name" % (pid, which),
+                      detail="`copia sync -r%s` to a remote with a newline inside a name (%s, %s): %s" % (" --delete" if which == "rm" else "", which, prof, why))
+                return
+    R.validation["cases"] += n
+    R.add("%s/push/lists/native" % pid, "holds", queries=0, solver_s=0.0, detail="the real push with a newline inside a directory name / a stale destination path touches nothing outside the destination (dev+release); validation")
